@@ -46,6 +46,43 @@ def strip_shell_comments(text: str) -> str:
     return "".join(result)
 
 
+def strip_comments(text: str) -> str:
+    """Strip the three comment kinds the grammar ignores (# ..., // ..., /* ... */), preserving strings.
+
+    Line comments keep their newline and block comments keep the newlines inside them, so line
+    numbers in later error messages stay the same.
+    """
+    result = []
+    i = 0
+    n = len(text)
+
+    while i < n:
+        ch = text[i]
+        if ch in "\"'":
+            quote = ch
+            result.append(ch)
+            i += 1
+            while i < n and text[i] != quote:
+                result.append(text[i])
+                i += 1
+            if i < n:
+                result.append(text[i])  # closing quote
+                i += 1
+        elif ch == "#" or text.startswith("//", i):
+            while i < n and text[i] != "\n":
+                i += 1
+        elif text.startswith("/*", i):
+            end = text.find("*/", i + 2)
+            end = n if end < 0 else end + 2
+            result.append("\n" * text.count("\n", i, end))
+            i = end
+        else:
+            result.append(ch)
+            i += 1
+
+    return "".join(result)
+
+
 class MacroProcessor:
     """Preprocesses TJP content to expand macros.
 
@@ -75,6 +112,10 @@ class MacroProcessor:
         Returns:
             The processed content with macros expanded
         """
+        # Comments are not project text: a macro definition or a 'now <date>' inside one must not
+        # be picked up by the scans below (the grammar ignores comments anyway)
+        content = strip_comments(content)
+
         # First pass: extract macro definitions
         content = self._extract_macros(content)
 
